@@ -20,14 +20,13 @@ from ...schema import (
     GraphQLCompositeType,
     GraphQLLeafType,
     GraphQLType,
-    InterfaceType,
     ListType,
     NonNullType,
     ObjectType,
     Schema,
     unwrap_type,
 )
-from ..visitors import ValidationVisitor
+from ..visitors import ValidationVisitor, _get_field_def
 
 
 T = TypeVar("T")
@@ -300,11 +299,8 @@ def _collect_fields_and_fragments(
         if isinstance(selection, _ast.Field):
             fieldname = selection.name.value
 
-            fielddef = (
-                parent_type.field_map.get(fieldname, None)
-                if isinstance(parent_type, (ObjectType, InterfaceType))
-                else None
-            )
+            # Includes the meta fields, which have a response shape as well.
+            fielddef = _get_field_def(ctx.schema, parent_type, selection)
 
             response_name = (
                 selection.alias.value
